@@ -6,3 +6,10 @@ ENGINES = [
 add("C18", "model-based PBT: exhaustive op-sequence enumeration + Hypothesis histories vs OrderedDict LRU model; metamorphic render equality across cache sizes",
     "Every get/set/has/clear history up to length 5 (quick) / 7 (thorough) over 3 keys and sizes {None,0,1,2,3} is compared step by step with an LRU reference model incl. a walk of the linked list; longer histories, cached_template identity/eviction histories and component render sequences under sizes {0,1,2,128} are sampled with Hypothesis. Exhaustive within the bound, sampled beyond.",
     "Trusted: the OrderedDict model in vf/props/c18.py; Django's Template for the 'fresh compile' side. template_cache_size=None (falls back to 128) is not exercised through settings.")
+
+ENGINES.append({"name": "PG", "path": "vf/gen/pg.py, vf/gen/pgstrat.py, vf/gen/pgrun.py, vf/gen/pgmin.py", "serves_properties": ["C01", "C03", "C04", "C05", "C06", "C07", "C10", "C14"], "kind_free_text": "Hypothesis generator of component programs (JSON AST), template printer / class builder, independent reference interpreter, bounded structural minimiser"})
+
+add("C01", "PBT with reference interpreter (differential): generated component programs rendered by the library vs an independent AST interpreter; metamorphic variants (dynamic component, Component.render)",
+    "Generated component libraries + pages (slots named/default/required/repeated/nested in defaults and fills/in loops, fills named/conditional/looped/dynamically named/aliased, `only`) are rendered under both context_behavior values and compared with the page text computed by an independent reference interpreter; expected-error programs must raise TemplateSyntaxError; the dynamic-component and Component.render(slots=...) variants must equal the tag form. Sampled (1.6k programs x 2 modes quick, 40k thorough), failures minimised structurally.",
+    "Trusted: the reference interpreter (vf/gen/pg.py). Non-termination is detected by a deterministic instance budget in generated get_context_data and by RecursionError. Known finding C01-K1 (dynamic component, django mode, deferred tag with scoped bindings) is attributed by a structural predicate.",
+    engine="PG")
